@@ -396,7 +396,12 @@ pub(crate) fn extract_code_block_start(line: &str) -> Option<(&str, &str, &str)>
         }
     }
 
-    language_start.map(|index| (&line[0..index], line[index..].trim_end(), ""))
+    match language_start {
+        Some(index) => Some((&line[0..index], line[index..].trim_end(), "")),
+        // nothing but backticks: a (longer) fence without language
+        None if line.len() >= 3 => Some((line, "", "")),
+        None => None,
+    }
 }
 
 pub(crate) trait NumberedLines {
